@@ -100,6 +100,9 @@ type cluster struct {
 	preVote      bool // Config.PreVote (simpv schedules; monitored, not model-validated)
 	checkQuorum  bool // Config.CheckQuorum
 	transfer     bool // the scheduler also calls TransferLeader (monitor-only schedules)
+	batch        []int // the entries (payload codes) of the PB event being executed
+	followNode   int   // after a batch with a late conf change: the leader to pester with further conf changes
+	followLeft   int
 	learners     bool // flag 4: membership-change schedule that also adds learners (monitored only)
 	snapHeavy    bool // schedule numbers 3000000..3999999: frequent compaction and duplicated deliveries
 	nodes        []*simNode
@@ -149,6 +152,31 @@ func payloadOf(e pb.Entry) uint64 {
 		return 999
 	}
 	return v
+}
+
+// entryOfCode builds the log entry a payload code stands for (see the CC event): a normal entry, or
+// the conf change RawNode.ProposeConfChange would marshal
+func entryOfCode(p int) pb.Entry {
+	var cc pb.ConfChangeI
+	switch {
+	case p >= 300 && p < 310:
+		cc = pb.ConfChange{Type: pb.ConfChangeAddLearnerNode, NodeID: uint64(p - 300)}
+	case p >= 130 && p < 230:
+		a, b := uint64((p-130)/10), uint64((p-130)%10)
+		cc = pb.ConfChangeV2{Changes: []pb.ConfChangeSingle{
+			{Type: pb.ConfChangeAddNode, NodeID: a}, {Type: pb.ConfChangeRemoveNode, NodeID: b}}}
+	case p >= 110 && p < 120:
+		cc = pb.ConfChange{Type: pb.ConfChangeRemoveNode, NodeID: uint64(p - 110)}
+	case p >= 100 && p < 110:
+		cc = pb.ConfChange{Type: pb.ConfChangeAddNode, NodeID: uint64(p - 100)}
+	default:
+		return pb.Entry{Type: pb.EntryNormal, Data: []byte(strconv.Itoa(p))}
+	}
+	typ, data, err := pb.MarshalConfChange(cc)
+	if err != nil {
+		panic(err)
+	}
+	return pb.Entry{Type: typ, Data: data}
 }
 
 func ccCode(cc pb.ConfChangeV2) uint64 {
@@ -423,6 +451,12 @@ func (c *cluster) exec(kind string, i int, payload int, m *flightMsg) (ok bool) 
 		fmt.Fprintf(c.w, "EV %s %d\n", kind, nd.id)
 	case "K", "SR", "CC", "TL":
 		fmt.Fprintf(c.w, "EV %s %d %d\n", kind, nd.id, payload)
+	case "PB":
+		fmt.Fprintf(c.w, "EV %s %d", kind, nd.id)
+		for _, p := range c.batch {
+			fmt.Fprintf(c.w, " %d", p)
+		}
+		fmt.Fprintln(c.w)
 	case "D", "DD":
 		fmt.Fprintf(c.w, "EV %s %d %s\n", kind, nd.id, msgKey(*m))
 	case "FP", "FPD":
@@ -487,6 +521,17 @@ func (c *cluster) exec(kind string, i int, payload int, m *flightMsg) (ok bool) 
 	case "TL":
 		// (monitor-only schedules) leadership transfer to node payload
 		nd.rn.TransferLeader(uint64(payload))
+	case "PB":
+		// ONE MsgProp with several entries (normal entries and conf changes at any position), stepped
+		// at a leader; elsewhere it is a no-op (a follower would forward the whole batch, which the
+		// trace format cannot name)
+		if nd.rn.Status().RaftState == raft.StateLeader && len(c.batch) > 0 {
+			ents := make([]pb.Entry, 0, len(c.batch))
+			for _, p := range c.batch {
+				ents = append(ents, entryOfCode(p))
+			}
+			_ = nd.rn.Step(pb.Message{Type: pb.MsgProp, From: nd.id, Entries: ents})
+		}
 	case "D", "DD", "FP", "FPD":
 		nd.pendingGhost = m.ghost
 		_ = nd.rn.Step(m.m)
@@ -574,6 +619,23 @@ func (c *cluster) runRandom(r *rng, nevents int) {
 			remove(r.intn(len(c.flight)))
 			continue
 		}
+		if c.followLeft > 0 {
+			// after a batch whose conf change was not the first entry: propose further conf changes at
+			// that leader while the leading entries commit and apply one by one
+			c.followLeft--
+			if r.chance(1, 4) {
+				var code int
+				if r.chance(1, 2) {
+					code = 110 + 2 + r.intn(c.n-1)
+				} else {
+					code = 100 + 1 + r.intn(c.n)
+				}
+				if !c.exec("CC", c.followNode, code, nil) {
+					return
+				}
+				continue
+			}
+		}
 		x := r.intn(total)
 		ok := true
 		switch {
@@ -655,7 +717,36 @@ func (c *cluster) runRandom(r *rng, nevents int) {
 				code = 130 + 10*(1+r.intn(c.n)) + 2 + r.intn(c.n-1)
 			}
 			if c.n >= 2 {
-				ok = c.exec("CC", r.intn(c.n), code, nil)
+				// a third of the conf changes travel inside a batched proposal (one MsgProp, several
+				// entries) stepped at a current leader, at any position among normal entries, sometimes
+				// with a second conf change in the same batch
+				leader := -1
+				for i, nd := range c.nodes {
+					if nd.rn.Status().RaftState == raft.StateLeader {
+						leader = i
+					}
+				}
+				if leader >= 0 && r.chance(1, 3) {
+					k := 2 + r.intn(3)
+					pos := r.intn(k)
+					c.batch = c.batch[:0]
+					for i := 0; i < k; i++ {
+						switch {
+						case i == pos:
+							c.batch = append(c.batch, code)
+						case r.chance(1, 5):
+							c.batch = append(c.batch, 110+2+r.intn(c.n-1))
+						default:
+							c.batch = append(c.batch, c.payload())
+						}
+					}
+					ok = c.exec("PB", leader, 0, nil)
+					if pos > 0 {
+						c.followNode, c.followLeft = leader, 16
+					}
+				} else {
+					ok = c.exec("CC", r.intn(c.n), code, nil)
+				}
 			}
 		default:
 			// change the partition: isolate a random minority-or-not set, or heal
@@ -834,6 +925,13 @@ func cmdSimFile(args []string) error {
 			case "P", "SR", "CC", "TL":
 				p, _ := strconv.Atoi(tok[3])
 				ok = c.exec(kind, id-1, p, nil)
+			case "PB":
+				c.batch = c.batch[:0]
+				for _, t := range tok[3:] {
+					p, _ := strconv.Atoi(t)
+					c.batch = append(c.batch, p)
+				}
+				ok = c.exec(kind, id-1, 0, nil)
 			case "K":
 				p, _ := strconv.Atoi(tok[3])
 				nd := c.nodes[id-1]
